@@ -33,12 +33,10 @@ func (r *Run) genBasis(filter func(*basis.Schema) bool, opts []basis.Options) (*
 		opts = basis.OptionSets(r.Tier, r.Seed)
 	}
 	if r.Tier == "thorough" {
-		// thorough: the quick schemas under all 32 option sets, and the additional (deeper) schemas under the
-		// pairwise-covering option sets — not the full product, which takes hours without adding shapes
-		quickSchemas := map[string]bool{}
-		for _, s := range basis.Enumerate("quick", r.Seed) {
-			quickSchemas[s.Name] = true
-		}
+		// thorough: one representative schema of every family under all 32 option sets, every other schema
+		// (including the additional, deeper ones of this tier) under the pairwise-covering option sets — not
+		// the full product, which takes many hours without adding shapes
+		quickSchemas := map[string]bool{"sprims": true, "sarr2": true, "srec2": true, "mmix": true, "uni": true, "smap": true}
 		quickOpts := map[string]bool{}
 		for _, o := range basis.OptionSets("quick", r.Seed) {
 			quickOpts[o.Suffix()] = true
